@@ -667,6 +667,10 @@ func (e *Engine) finishPath() {
 		e.res.Unsupported[e.outcome[len("unsupported:"):]]++
 	} else if e.outcome == "unwind" {
 		e.res.UnwindHits++
+		// a loop that does not end within the unwinding limit may be an
+		// endless loop: a candidate the native replay decides (it hangs, or
+		// the bound was too small)
+		e.pathFailure("unwind:"+e.unwindFn, "hang", e.unwindFn, "loop exceeded the unwinding limit: possibly endless")
 	} else if e.outcome == "ok" || e.outcome == "" {
 		if e.ps.locksHeld != 0 {
 			e.pathFailure("wedged-lock", "lock", "harness-exit", fmt.Sprintf("%d lock(s) still held when the harness returned", e.ps.locksHeld))
